@@ -363,6 +363,50 @@ impl Family for SemFam {
         }
     }
 
+    /// release -> the acquire it enables, in two implementation-independent forms (permits are
+    /// fungible, which batch an acquisition is served from is not part of the contract):
+    /// *necessity* — an acquisition that could not have completed without a release (counting every
+    /// other release that had been called and only the acquisitions that had certainly completed
+    /// before it started) has that release in its past.  Programs over acquire / try_acquire /
+    /// release / available_permits only.
+    fn hb_must(p: &Program<SemFam>, log: &[Entry<SemRes>]) -> Vec<(usize, usize)> {
+        let Some((rels, acqs)) = Self::permit_events(p, log) else { return vec![] };
+        let mut out = Vec::new();
+        for &(a_call, a_ret, ak) in &acqs {
+            for &(r_src, r_call, rk) in &rels {
+                if r_call > a_ret {
+                    continue;
+                }
+                let others: usize = rels.iter().filter(|r| r.1 != r_call && r.1 < a_ret).map(|r| r.2).sum();
+                let taken: usize = acqs.iter().filter(|x| x.1 < a_call).map(|x| x.2).sum();
+                // permits are fungible: the acquisitions completed earlier may have used up this
+                // release's permits first, sparing the others' (false alarm corrected: the first
+                // version charged all earlier acquisitions to the other releases)
+                let spared = p.cfg.permits + others;
+                let used_of_others = taken.saturating_sub(rk);
+                if spared < used_of_others + ak {
+                    if let Some(src) = r_src {
+                        out.push((src, a_ret));
+                    }
+                }
+            }
+        }
+        out
+    }
+    /// *conservation* — if by the end of the execution every permit (initial + released) has been
+    /// taken again, every release is in the past of at least one acquisition that returned after the
+    /// release was called.
+    fn hb_must_reach(p: &Program<SemFam>, log: &[Entry<SemRes>]) -> Vec<(usize, Vec<usize>)> {
+        let Some((rels, acqs)) = Self::permit_events(p, log) else { return vec![] };
+        let released: usize = rels.iter().map(|r| r.2).sum();
+        let taken: usize = acqs.iter().map(|a| a.2).sum();
+        if p.cfg.permits + released != taken {
+            return vec![];
+        }
+        rels.iter()
+            .filter_map(|&(src, call, _)| src.map(|s| (s, acqs.iter().filter(|a| a.1 > call).map(|a| a.1).collect::<Vec<_>>())))
+            .collect()
+    }
     fn objects_of(op: &SemOp) -> Vec<u32> {
         match op {
             // the shared slot is guarded by a Shuttle atomic of the program's own
@@ -623,7 +667,72 @@ fn thread_seqs(k: usize, shared: bool) -> Vec<Vec<SemOp>> {
     out
 }
 
+impl SemFam {
+    /// (releases: (releaser's last clocked event before the call, index of the call, permits),
+    ///  completed acquisitions: (index of the call, index of the return, permits)); None if the
+    /// program uses anything whose permit flow is not this simple (futures, cancellation, close).
+    #[allow(clippy::type_complexity)]
+    fn permit_events(p: &Program<SemFam>, log: &[Entry<SemRes>]) -> Option<(Vec<(Option<usize>, usize, usize)>, Vec<(usize, usize, usize)>)> {
+        if !p.threads.iter().flatten().all(|o| matches!(o, GOp::Op(SemOp::Acquire(_) | SemOp::TryAcquire(_) | SemOp::Release(_) | SemOp::Avail) | GOp::Spawn(_) | GOp::Join(_))) {
+            return None;
+        }
+        let mut rels = Vec::new();
+        let mut acqs = Vec::new();
+        for (i, e) in log.iter().enumerate() {
+            if e.op >= p.threads[e.thread].len() {
+                continue; // End entry
+            }
+            match (&e.kind, &p.threads[e.thread][e.op]) {
+                // source of the edge: the releaser's clock when `release` returns (the clock stored
+                // with the permits is taken inside the call, nothing advances it afterwards)
+                (EKind::Call, GOp::Op(SemOp::Release(k))) => {
+                    let ret = log.iter().position(|x| x.thread == e.thread && x.op == e.op && matches!(x.kind, EKind::Ret(_)));
+                    rels.push((ret.or_else(|| prev_clocked(log, i, e.thread)), i, *k))
+                }
+                (EKind::Ret(GRes::R(SemRes::Ok)), GOp::Op(SemOp::Acquire(k) | SemOp::TryAcquire(k))) => {
+                    let call = call_of(log, e.thread, e.op)?;
+                    acqs.push((call, i, *k));
+                }
+                _ => {}
+            }
+        }
+        Some((rels, acqs))
+    }
+}
+
+/// Releases from unrelated tasks feeding acquisitions of several permits (C15: which release is in
+/// whose past).
+fn clock_programs() -> Vec<Program<SemFam>> {
+    use SemOp::*;
+    let mut out = Vec::new();
+    for fair in [true, false] {
+        for permits in [0, 1] {
+            let cfg = SemCfg { permits, fair };
+            let groups: Vec<Vec<Vec<SemOp>>> = vec![
+                vec![vec![Release(1)], vec![Release(2)], vec![Acquire(2), Acquire(1)]],
+                vec![vec![Release(1)], vec![Release(2)], vec![Acquire(2)], vec![Acquire(1)]],
+                vec![vec![Release(1)], vec![Release(1)], vec![Acquire(2)]],
+                vec![vec![Release(2)], vec![Release(2)], vec![Acquire(3), Acquire(1)]],
+                vec![vec![Release(1), Release(1)], vec![Release(1)], vec![Acquire(2), TryAcquire(1)]],
+                vec![vec![Release(2)], vec![Release(1)], vec![Acquire(1), Acquire(2)]],
+            ];
+            for ch in groups {
+                // with an initial permit the acquirers take one more
+                let mut ch = ch;
+                if permits == 1 {
+                    ch.last_mut().unwrap().push(Acquire(1));
+                }
+                out.push(Program::fork_join(cfg.clone(), vec![], ch));
+            }
+        }
+    }
+    out
+}
+
 pub fn program_set(set: &str) -> Vec<Program<SemFam>> {
+    if set == "clocks" {
+        return clock_programs();
+    }
     let thorough = set == "thorough";
     let mut out = Vec::new();
     let s2 = thread_seqs(2, false);
